@@ -1,0 +1,15 @@
+//go:build verif
+
+package runner
+
+// Contracts for the govc verifier (/verif). This file contains comments only;
+// it does not change the compiled package.
+
+// The clean runner brackets every call with Acquire/Release of the idle
+// invoker: exactly one Release per successful Acquire, on every path (C12).
+//@ func (*cleanRunner).Run
+//@   props C12
+//@   ensures balanced: acquired(r.idleInvoker) == 0
+//@ func (*cleanRunner).CheckReadiness
+//@   props C12
+//@   ensures balanced: acquired(r.idleInvoker) == 0
